@@ -153,6 +153,33 @@ class Forest(object):
                 except Exception as e:
                     a.raised = e
                 return a
+            if k == 'ctor':
+                # a child constructed with parent=...: the constructor attaches it (or refuses: wrong datatype, unknown
+                # datatype, value too long, other level ...)
+                parent = self.resolve(op['parent'], True)
+                cls = type(parent).__name__
+                if cls == 'SubComponent':
+                    return Applied('skipped')
+                child_cls = {'Message': 'Segment', 'Group': 'Segment', 'Segment': 'Field', 'Field': 'Component', 'Component': 'SubComponent'}[cls]
+                names = [n for n in self.child_names(parent) if n not in T.lib(parent.version).GROUPS]
+                name = names[op['k'] % len(names)] if (names and op['named']) else None
+                lvl = parent.validation_level if op['mismatch'] == 0 else 3 - parent.validation_level
+                kw = {'parent': parent, 'version': parent.version, 'validation_level': lvl}
+                dt = [None, None, 'ST', 'NM', 'CX', 'QQ', 'varies', 'SI'][op['dt'] % 8]
+                if child_cls != 'Segment' and dt is not None:
+                    kw['datatype'] = dt
+                if child_cls == 'SubComponent' and op['val'] is not None:
+                    kw['value'] = ['a', 'x' * 300, '12', 'a&b'][op['val'] % 4]
+                if child_cls == 'Segment' and name is None:
+                    return Applied('skipped')
+                a = Applied('ctor:%s' % child_cls, parent)
+                before = len(parent.children.list)
+                try:
+                    new = getattr(core, child_cls)(name, **kw) if name is not None else getattr(core, child_cls)(**kw)
+                    self.all.append(new)
+                except Exception as e:
+                    a.raised = e
+                return a
             if k == 'set_parent':
                 # the parent attribute assigned directly: child.parent = other element / None
                 child = self.resolve(op['child'])
@@ -642,6 +669,8 @@ def op_strategy():
         st.fixed_dictionaries({'op': st.just('assign'), 'parent': SHALLOW, 'child': st.integers(0, 9)}),
         st.fixed_dictionaries({'op': st.just('assign_idx'), 'parent': SHALLOW, 'child': st.integers(0, 9), 'i': st.integers(-1, 2)}),
         st.fixed_dictionaries({'op': st.just('reattach'), 'parent': SHALLOW, 'child': REF}),
+        st.fixed_dictionaries({'op': st.just('ctor'), 'parent': NEAR, 'k': st.integers(0, 12), 'named': st.booleans(), 'dt': st.integers(0, 7),
+                               'mismatch': st.sampled_from([0, 0, 0, 1]), 'val': st.one_of(st.none(), st.integers(0, 3))}),
         st.fixed_dictionaries({'op': st.just('set_parent'), 'child': REF, 'parent': SHALLOW, 'none': st.sampled_from([False, False, False, True])}),
         st.fixed_dictionaries({'op': st.just('list_insert'), 'parent': SHALLOW, 'child': st.integers(0, 9), 'i': st.integers(-1, 4)}),
         st.fixed_dictionaries({'op': st.just('list_setitem'), 'parent': NEAR, 'i': st.integers(0, 5), 'what': st.sampled_from(['text', 'element'])}),
